@@ -269,6 +269,8 @@ def arr_slice(a, sl, where=''):
     n = arr_len(a)
     if n is None:
         raise AnalysisError(f'{where}: slice of an array of unknown shape')
+    cv = lambda x_: (int(concrete(x_)) if x_ is not None and not isinstance(x_, int) and concrete(x_) is not None else x_)
+    sl = slice(cv(sl.start), cv(sl.stop), cv(sl.step))
     lo, hi, step = sl.indices(n)
     if step != 1:
         raise AnalysisError(f'{where}: strided slice of an array')
@@ -775,7 +777,12 @@ class Interp:
             if isinstance(base, Arr):
                 if isinstance(idx, slice):
                     tgt = arr_slice(base, idx, fr.mod.where(st))
-                    vals = [v.get(k_) for k_ in range(arr_len(tgt))] if isinstance(v, Arr) else [v] * arr_len(tgt)      # (read everything before the first store: source and target may overlap)
+                    if isinstance(v, (Vec, list, tuple)):
+                        if len(v) != arr_len(tgt):
+                            raise RaiseSignal(ast.copy_location(ast.Raise(exc=ast.Name(id='ValueError', ctx=ast.Load()), cause=None), st), f'ValueError: could not broadcast input array from shape ({len(v)},) into shape ({arr_len(tgt)},)')
+                        vals = list(v)
+                    else:
+                        vals = [v.get(k_) for k_ in range(arr_len(tgt))] if isinstance(v, Arr) else [v] * arr_len(tgt)      # (read everything before the first store: source and target may overlap)
                     for k_, x_ in enumerate(vals):
                         tgt.set(k_, x_, st)
                 else:
